@@ -374,6 +374,17 @@ class StrOps:
         drop = self.WS if chars_cls is None else chars_cls
         keep = self.B.ALL - drop
         if s.fixed:
+            # exact stripping while the edge characters are certainly strippable
+            cells = list(s.pre)
+            changed = False
+            while left and cells and env.cls(cells[0]) and env.cls(cells[0]) <= drop:
+                cells.pop(0)
+                changed = True
+            while right and cells and env.cls(cells[-1]) and env.cls(cells[-1]) <= drop:
+                cells.pop()
+                changed = True
+            if changed:
+                s = Str(cells, imprecise=s.imprecise)
             n = len(s.pre)
             if n == 0:
                 return s
@@ -420,6 +431,10 @@ class StrOps:
         if not changed:
             return s
         mf = map_fn if map_fn is not None else (lambda c: c)
+        if s.fixed and all((mf(env.cls(c)) <= del_cls) or not (mf(env.cls(c)) & del_cls) for c in s.pre) \
+                and all(mf(env.cls(c)) == env.cls(c) for c in s.pre if not (mf(env.cls(c)) <= del_cls)):
+            # every position is either certainly deleted or certainly kept unchanged: positions survive
+            return Str([c for c in s.pre if not (mf(env.cls(c)) <= del_cls)], imprecise=s.imprecise)
         if not any(mf(env.cls(c)) & del_cls for c in s.cells()):
             # nothing can be deleted: positions are preserved, classes are mapped
             return self.map_cells(env, s, mf, inv=lambda b: mf(frozenset([b])))
